@@ -23,7 +23,7 @@ func endsInReturn(b *ast.BlockStmt) bool {
 }
 
 func main() {
-	mode := flag.String("mode", "invert", "invert|early")
+	mode := flag.String("mode", "invert", "invert|early|forbreak|ifswitch")
 	flag.Parse()
 	for _, path := range flag.Args() {
 		if strings.HasSuffix(path, "_test.go") {
@@ -49,6 +49,77 @@ func main() {
 				}
 				is.Cond = &ast.UnaryExpr{Op: token.NOT, X: &ast.ParenExpr{X: is.Cond}}
 				is.Body, is.Else = eb, is.Body
+				return true
+			})
+		case "forbreak":
+			// for cond { body }  ->  for { if !(cond) { break }; body }   (no init/post, no label games: continue still works)
+			ast.Inspect(f, func(n ast.Node) bool {
+				fs, ok := n.(*ast.ForStmt)
+				if !ok || fs.Cond == nil || fs.Init != nil || fs.Post != nil {
+					return true
+				}
+				brk := &ast.IfStmt{Cond: &ast.UnaryExpr{Op: token.NOT, X: &ast.ParenExpr{X: fs.Cond}}, Body: &ast.BlockStmt{List: []ast.Stmt{&ast.BranchStmt{Tok: token.BREAK}}}}
+				fs.Body.List = append([]ast.Stmt{brk}, fs.Body.List...)
+				fs.Cond = nil
+				return true
+			})
+		case "ifswitch":
+			// if a {A} else if b {B} else {C}  ->  switch { case a: A; case b: B; default: C }  (chains of >= 2 tests, no init)
+			var conv func(is *ast.IfStmt) *ast.SwitchStmt
+			conv = func(is *ast.IfStmt) *ast.SwitchStmt {
+				var clauses []ast.Stmt
+				n := 0
+				cur := is
+				for {
+					if cur.Init != nil {
+						return nil
+					}
+					clauses = append(clauses, &ast.CaseClause{List: []ast.Expr{cur.Cond}, Body: cur.Body.List})
+					n++
+					switch e := cur.Else.(type) {
+					case *ast.IfStmt:
+						cur = e
+						continue
+					case *ast.BlockStmt:
+						clauses = append(clauses, &ast.CaseClause{Body: e.List})
+					case nil:
+					}
+					break
+				}
+				if n < 2 {
+					return nil
+				}
+				// a break inside an if body would now leave the switch instead of an enclosing loop: give up on those
+				bad := false
+				for _, c := range clauses {
+					ast.Inspect(c, func(x ast.Node) bool {
+						if b, ok := x.(*ast.BranchStmt); ok && b.Tok == token.BREAK && b.Label == nil {
+							bad = true
+						}
+						switch x.(type) {
+						case *ast.ForStmt, *ast.RangeStmt, *ast.SwitchStmt, *ast.SelectStmt, *ast.TypeSwitchStmt, *ast.FuncLit:
+							return false
+						}
+						return true
+					})
+				}
+				if bad {
+					return nil
+				}
+				return &ast.SwitchStmt{Body: &ast.BlockStmt{List: clauses}}
+			}
+			ast.Inspect(f, func(n ast.Node) bool {
+				b, ok := n.(*ast.BlockStmt)
+				if !ok {
+					return true
+				}
+				for i, st := range b.List {
+					if is, ok := st.(*ast.IfStmt); ok {
+						if sw := conv(is); sw != nil {
+							b.List[i] = sw
+						}
+					}
+				}
 				return true
 			})
 		case "early":
